@@ -427,6 +427,8 @@ def job_windows(job):
     recs.append((24, R[24:26], "GG" if R[24:26] != "GG" else "CC"))  # MNP: not an SNV
     extra_alt = [b for b in "ACGT" if b != R[15] and b not in pos_alleles[15]][0]
     recs.append((15, R[15], extra_alt))                     # second record at an SNV position: alleles merge
+    recs.append((15, R[15], pos_alleles[15][0] + "," + extra_alt))   # third record sharing ALTs with both: no allele may be listed twice
+    recs.append((20, R[20], ",".join(pos_alleles[20])))    # exactly duplicated line
     for p, ref_, alt in sorted(recs, key=lambda t: t[0]):
         lines.append("chr1\t%d\t.\t%s\t%s\t.\t.\t." % (p + 1, ref_, alt))
     path = os.path.join(str(d), "w.vcf")
